@@ -98,10 +98,11 @@ pub fn compare(x: &ExpectedTx, t: &DTx, check_redeemers: bool) -> Vec<Diff> {
     }
 
     if x.validity_start != t.validity_start {
-        out.push(d("validity_start", &x.validity_start, &t.validity_start, x.validity_start.is_some() == t.validity_start.is_some()));
+        // a bound the template states and the body lacks is a dropped quantity, like an altered one
+        out.push(d("validity_start", &x.validity_start, &t.validity_start, x.validity_start.is_some()));
     }
     if x.ttl != t.ttl {
-        out.push(d("ttl", &x.ttl, &t.ttl, x.ttl.is_some() == t.ttl.is_some()));
+        out.push(d("ttl", &x.ttl, &t.ttl, x.ttl.is_some()));
     }
 
     let got_signers = t.required_signers.clone();
@@ -163,7 +164,7 @@ pub fn compare(x: &ExpectedTx, t: &DTx, check_redeemers: bool) -> Vec<Diff> {
         out.push(d("withdrawals", &x.withdrawals, &got_w, numeric));
     }
     if t.donation != x.donation {
-        out.push(d("donation", &x.donation, &t.donation, t.donation.is_some() == x.donation.is_some()));
+        out.push(d("donation", &x.donation, &t.donation, x.donation.is_some()));
     }
 
     if !t.other_body_keys.is_empty() {
